@@ -122,6 +122,7 @@ class Interp:
         self.counter = {}
         self.in_spec = 0
         self.frames = []
+        self.effects = []
         ops.set_raise_hook(self._raise_hook)
         ops._card_hook = self._card_of
 
@@ -701,7 +702,11 @@ class Interp:
         kwargs = {}
         for k in node.keywords:
             if k.arg is None:
-                raise Unsupported('**kwargs')
+                d = self.eval(k.value, fr)
+                if not isinstance(d, dict) or any(not isinstance(x, str) for x in d):
+                    raise Unsupported('**kwargs of a non-dictionary')
+                kwargs.update(d)
+                continue
             kwargs[k.arg] = self.eval(k.value, fr)
         return args, kwargs
 
@@ -709,6 +714,13 @@ class Interp:
     def call_value(self, fv, args, kwargs, fr, node=None):
         if isinstance(fv, BoundSpecial):
             return self.call_method(fv.base, fv.name, args, kwargs, fr, None, node)
+        from .sandbox import OpaqueModule
+        if isinstance(fv, OpaqueModule):
+            # call into an unavailable third-party module (matplotlib): nothing is modelled, the call and its
+            # arguments are recorded so that contracts can state what is HANDED to the library
+            self.effects.append((fv.__name__, tuple(args), dict(kwargs)))
+            self.trusted_used.add('third-party call recorded, not modelled: ' + fv.__name__.split('.')[0])
+            return OpaqueModule(fv.__name__ + '()')
         if isinstance(fv, Opaque):
             self.dropped.add('call of ' + fv.what)
             return Opaque(fv.what + '()')
@@ -797,6 +809,9 @@ class Interp:
                 self.assign(base_node, newbase, fr)
             return res
         # native module function or native instance method
+        from .sandbox import OpaqueModule
+        if isinstance(base, OpaqueModule):
+            return self.call_value(getattr(base, attr), args, kwargs, fr, node)
         try:
             v = getattr(base, attr)
         except AttributeError:
@@ -947,6 +962,11 @@ class Interp:
             fr.env[t.id] = v
             return
         if isinstance(t, (ast.Tuple, ast.List)):
+            from .sandbox import OpaqueModule
+            if isinstance(v, (Opaque, OpaqueModule)):
+                for tt in t.elts:
+                    self.assign(tt, v, fr)
+                return
             if isinstance(v, SSeq):
                 raise Unsupported('unpacking a symbolic sequence')
             vals = list(v)
@@ -1328,6 +1348,7 @@ class Interp:
     lemmas_used = set()
     last_top_env = {}
     ghost_frames = []
+    effects = []
 
     def assume_invariants(self, spec, fr):
         for inv in spec.get('invariant', []):
